@@ -4,7 +4,7 @@
  "standin": "B-str",
  "bound": "str/bytes over a 12-symbol adversarial alphabet: all strings of length <= 3 (quick) / <= 5 (thorough) unformatted; hand-picked + 400 (quick) / 20 000 (thorough) seeded random strings of length <= 12 top-level and inside list/dict/tuple through black and format_command=cat; thorough adds every non-surrogate code point as a 1-char string",
  "input": "a-shape:top/none: '\\n\\t\\t\\n'",
- "detail": "literal spans several lines but is not triple quoted with escaped line ends: '\"\"\"\\n\\t\\t\\n\"\"\"'\nsame value, same symptom in 2 checks: a-shape:top/none, b:top/black"
+ "detail": "literal spans several lines but is not triple quoted with escaped line ends: '\"\"\"\\n\\t\\t\\n\"\"\"'"
 }
 """
 
